@@ -60,7 +60,7 @@ struct KVWriter {
 struct Failure { std::string replay, why; };
 
 struct State {
-	std::string prop, out, replayDir = "replay", tier = "quick", plan;
+	std::string prop, out, replayDir = "replay", tier = "quick", plan, aux;
 	int worker = 0, nworkers = 1;
 	uint64_t seed = 1;
 	uint64_t evaluations = 0;
@@ -135,8 +135,13 @@ void registerCheck(const std::string& name, std::function<rc::Gen<Case>()> gen, 
 		S.lastFailText.clear();
 		if (!S.subs.count(name)) S.subs[name] = {0, true};
 		auto g = gen();
+		// shrinking budget: after the first failure only a bounded number of further executions is spent on shrinking
+		// (heavy cases cost seconds each); once it is used up every candidate is skipped, which ends rapidcheck's search
+		long shrinkBudget = heavy ? 12 : 20000;
+		bool failedOnce = false;
 		auto result = rc::detail::checkTestable([&]() {
 			Case c = *g;
+			if (failedOnce && shrinkBudget-- <= 0) return;
 			std::string text = c.dump();
 			if (heavy) current(text);
 			S.evaluations++;
@@ -144,6 +149,7 @@ void registerCheck(const std::string& name, std::function<rc::Gen<Case>()> gen, 
 			std::string why = body(c);
 			if (heavy) clearCurrent();
 			if (!why.empty()) {
+				failedOnce = true;
 				S.lastFailText = text;
 				S.lastFailWhy = why;
 				RC_FAIL(why);
@@ -257,6 +263,7 @@ inline int harnessMain(int argc, char** argv, std::function<void()> init = nullp
 		else if (a == "--plan") S.plan = next();
 		else if (a == "--replay-dir") S.replayDir = next();
 		else if (a == "--replay") replayPath = next();
+		else if (a == "--aux") S.aux = next();
 	}
 	if (init) init();
 	if (!replayPath.empty()) {
@@ -287,6 +294,7 @@ inline int harnessMain(int argc, char** argv, std::function<void()> init = nullp
 		if (q != std::string::npos) { maxSize = atoi(rest.substr(q + 1).c_str()); rest = rest.substr(0, q); }
 		long total = atol(rest.c_str());
 		long n = total / S.nworkers + ((total % S.nworkers) > S.worker ? 1 : 0);
+		if (rest == "all") n = 1;   // enumerating sub-checks that split their domain over the workers themselves
 		bool found = false;
 		for (auto& s : registry()) if (s.name == sub) {
 			found = true;
